@@ -780,6 +780,7 @@ func directCall(name string, data []byte) (panicMsg, stack string) {
 }
 
 func execC20(t *testing.T, plan *Plan) *World {
+	defer noteWorld(plan)()
 	if plan.Meta["arm"] != "direct" {
 		return Exec(t, plan, &c20Oracle{})
 	}
